@@ -44,7 +44,7 @@ func Merc(this *SR) (forward, inverse Transformer, err error) {
 	// Mercator forward equations--mapping lat,long to x,y
 	forward = func(lon, lat float64) (x, y float64, err error) {
 		// convert to radians
-		if math.IsNaN(lat) || math.IsNaN(lon) || lat*r2d > 90 || lat*r2d < -90 || lon*r2d > 180 || lon*r2d < -180 {
+		if math.IsNaN(lat) || math.IsNaN(lon) || lat*r2d > 90 || lat*r2d < -90 {
 			err = fmt.Errorf("in proj.Merc forward: invalid longitude (%g) or latitude (%g)", lon, lat)
 			return
 		}
